@@ -81,7 +81,7 @@ func trieExhaustive(w *run.Worker) {
 			return
 		}
 		c.Desc("subset mask %09b of %v", mask, trieExhUniverse)
-		r := caseRng(c, w)
+		r := c.Rng
 		build := func() (*digest.InstanceNameTrie, map[string]int) {
 			it := digest.NewInstanceNameTrie()
 			ref := map[string]int{}
@@ -120,7 +120,7 @@ func trieExhaustive(w *run.Worker) {
 // names only: removing an absent name is outside the documented contract).
 func trieCase(w *run.Worker) func(c *run.Case) {
 	return func(c *run.Case) {
-		r := caseRng(c, w)
+		r := c.Rng
 		it := digest.NewInstanceNameTrie()
 		ref := map[string]int{}
 		touched := map[string]bool{}
